@@ -62,7 +62,7 @@ func translateFunc(p *Pkg, key string, fd *ast.FuncDecl, isInit bool) *Func {
 	}
 	if fd.Recv != nil {
 		addFields(fd.Recv)
-		if rn, _ := recvTypeName(fd); !ast.IsExported(rn) {
+		if rn, _ := recvTypeName(fd); !ast.IsExported(rn) && !promotedExported(p)[rn] {
 			f.Exported = false
 		}
 		f.RecvFlds = params[0].t.refFields()
@@ -101,6 +101,9 @@ func translateFunc(p *Pkg, key string, fd *ast.FuncDecl, isInit bool) *Func {
 				v = rs(Root{Kind: KParam, I: i})
 			}
 			ft.declare(pr.id, pr.t, v)
+			if pr.id != nil && pr.id.Obj != nil && ft.vars[pr.id.Obj] != nil {
+				ft.vars[pr.id.Obj].IfaceUntrusted = true // the dynamic type of an interface parameter is unknown
+			}
 		}
 		if fd.Type.Results != nil {
 			for _, fld := range fd.Type.Results.List {
@@ -142,6 +145,49 @@ func translateVarInits(p *Pkg) *Func {
 		}
 	}
 	return &Func{Name: ft.name, IsInit: true, Body: ft.body, Sum: Summary{Ret: RootSet{}, Stores: map[int]RootSet{}}}
+}
+
+// promotedExported: the unexported types of p that are embedded (directly or
+// through other embedded structs) in an EXPORTED struct type: their exported
+// methods are promoted and so belong to the exported surface of the package.
+var promotedMemo = map[*Pkg]map[string]bool{}
+
+func promotedExported(p *Pkg) map[string]bool {
+	if m, ok := promotedMemo[p]; ok {
+		return m
+	}
+	m := map[string]bool{}
+	var visit func(name string, depth int)
+	visit = func(name string, depth int) {
+		ts := p.Types[name]
+		if ts == nil || depth > 8 {
+			return
+		}
+		st, ok := ts.Type.(*ast.StructType)
+		if !ok {
+			return
+		}
+		for _, fl := range st.Fields.List {
+			if len(fl.Names) != 0 {
+				continue
+			}
+			t := strip(fl.Type)
+			if s, ok := t.(*ast.StarExpr); ok {
+				t = strip(s.X)
+			}
+			if id, ok := t.(*ast.Ident); ok && !m[id.Name] {
+				m[id.Name] = true
+				visit(id.Name, depth+1)
+			}
+		}
+	}
+	for name := range p.Types {
+		if ast.IsExported(name) {
+			visit(name, 0)
+		}
+	}
+	promotedMemo[p] = m
+	return m
 }
 
 var globalTypeBusy = map[string]bool{}
